@@ -23,6 +23,7 @@ ASSUMPTIONS = [
     "tie group (either end accepted, per key level); among themselves they are in document order (reversed under collector reverse)",
     "sort keys are single-valued fields (ID, NUMERIC int, DATETIME, BOOLEAN, STORED); multi-valued KEYWORD is used only for overlapping "
     "grouping - what 'the value' of a multi-token field is for sorting is not defined by the docs",
+    "BOOLEAN group names are compared through the field's own from_bytes(to_bytes(value)) ('t'/'f'), not literally",
     "the scored ranking search(q, limit=None) (score desc, doc number asc) is the oracle ranking for collapse / filter / paging and its "
     "scores are the ScoreFacet keys (scoring itself: C05/C09); it is checked to contain exactly the model's matched set",
     "groups: the name of the group holding documents WITHOUT the key is not specified (None, '' or the column default): required is only that "
@@ -31,7 +32,8 @@ ASSUMPTIONS = [
     "collapse: documents without the collapse key are never eliminated (documented); with a numeric collapse column the missing documents carry the column "
     "default and are indistinguishable from a real key, so numeric collapse keys are only used on corpora where every matched document has the key",
     "page number beyond the last page: the ResultsPage docstring (clamp to the last page) and the search_page docstring (ValueError) disagree; both accepted",
-    "filtered_count is compared only for unlimited or sorted searches (a top-N collector that skips blocks does not see every filtered document)",
+    "filtered_count and collapsed_counts are compared exactly only for unlimited or sorted searches (a top-N collector that skips blocks does not see every "
+    "filtered/eliminated document); under a scored limit collapsed_counts may only under-count",
 ]
 SHARDS = {"quick": 4, "thorough": 16}
 BUDGET_S = {"quick": 80, "thorough": 800}
@@ -430,7 +432,10 @@ def check_sorts(env, nviews):
         nontrivial = len(set(repr(x) for x in keys)) >= 2 and (len(keys) > len(set(repr(x) for x in keys)) or any(MISSING in x for x in keys))
         if nontrivial:
             ctx.count("c14.sort.nontrivial")
-        mech = "order:%s%s" % ("+".join(sp.kind for sp in specs), ":creverse" if creverse else "")
+        kinds = sorted(set(sp.kind.split(":")[0] + (":" + sp.kind.split(":")[1] if sp.kind.startswith("field:") and nlev == 1 else "")
+                           for sp in specs))
+        mech = "order:%s%s%s%s" % ("multi:" if nlev > 1 else "", "+".join(kinds), ":rev" if any(sp.reverse for sp in specs) else "",
+                                   ":creverse" if creverse else "")
         if got not in exps:
             env.fail("sort", mech, dict(extra, expected_any_of=[env.ids(e) for e in exps[:2]], observed=env.ids(got),
                                         keys=[(env.id_of[dn], repr([kf(dn) for kf, _ in levels])) for dn in got[:40]]))
@@ -564,6 +569,11 @@ def check_groups(env, nviews):
         mech = "groups:%s:%s" % (sp.kind, mtname)
         bad = None
         rest = dict(groups)
+        if sp.kind == "field:b":
+            # BOOLEAN has no column: group names are the field's own from_bytes(to_bytes(value)) (assumption: not literal True/False)
+            fb = env.s.schema["b"]
+            rest = dict((({fb.from_bytes(fb.to_bytes(True)): True, fb.from_bytes(fb.to_bytes(False)): False}.get(kx, kx)
+                          if kx is not None else kx), v) for kx, v in rest.items())
         for name, dns in model.items():
             if name not in rest:
                 bad = "no group named %r (expected members %r)" % (name, env.ids(dns))
@@ -604,6 +614,9 @@ def check_groups(env, nviews):
                 break
             for name, dns in g.items():
                 vals = set(env.doc(dn).get(f) for dn in dns)
+                if f == "b" and name is not None:
+                    fb = s.schema["b"]
+                    name = {fb.from_bytes(fb.to_bytes(True)): True, fb.from_bytes(fb.to_bytes(False)): False}.get(name, name)
                 if len(vals) != 1 or (None not in vals and vals != set([name])):
                     env.fail("group", "groups:multi-facets:key", dict(extra, facet=f, group=repr(name), values=repr(vals)))
                     break
@@ -669,8 +682,19 @@ def check_collapse(env, nviews):
         if not env.check_len("collapse", "collapse:" + mech, r, len(exp), dict(extra, uncollapsed=len(ranking))):
             continue
         cc = dict((kx, v) for kx, v in dict(r.collapsed_counts).items() if v)
+        if keyf == "b":
+            fb = s.schema["b"]
+            cc = dict(({fb.from_bytes(fb.to_bytes(True)): True, fb.from_bytes(fb.to_bytes(False)): False}.get(kx, kx), v) for kx, v in cc.items())
         ctx.count("c14.collapse.counts_evals")
-        if cc != counts:
+        if k is not None and not sortedby and not order:
+            # a top-N collector that skips blocks does not see every eliminated document: never more than the truth
+            exact = False
+            okc = all(kx in counts and v <= counts[kx] for kx, v in cc.items())
+        else:
+            exact = True
+            okc = cc == counts
+            ctx.count("c14.collapse.counts_exact_evals")
+        if not okc:
             env.fail("collapse", "collapsed_counts:" + mech, dict(extra, expected=dict((repr(a), b) for a, b in counts.items()),
                                                                  observed=dict((repr(a), b) for a, b in cc.items())))
             continue
@@ -835,7 +859,7 @@ def check_pages(env, nviews):
 # ----------------------------------------------------------------------
 
 def run(ctx):
-    for idx in ctx.cases(quick=28, thorough=260):
+    for idx in ctx.cases(quick=60, thorough=700):
         rng = ctx.rng(idx)
         ctx.reseed_global(idx)
         case = Case(rng)
